@@ -158,7 +158,7 @@ def check(case, ctx):
     for name, obj in sorted(reach.items()):
         for attr in obj.calculated_attributes:
             v = getattr(obj, attr)
-            entries = [("%s.%s[%s]" % (name, attr, getattr(k, "name", k)), x) for k, x in v.items()] \
+            entries = [("%s.%s[%s]" % (name, attr, (S.key_of(k) if hasattr(k, "name") else k)), x) for k, x in v.items()] \
                 if isinstance(v, dict) else [("%s.%s" % (name, attr), v)]
             for where, x in entries:
                 try:
